@@ -24,7 +24,7 @@ Your task: make a small, realistic change to the google/wuffs source in {wt} (th
   2. the existing test suite still passes, unedited: `cd {wt} && go test -vet=off -count=1 ./lang/... ./lib/...` (all packages must pass; do not modify or delete any existing *_test.go file or test data);
   3. the breakage needs something SPECIFIC to manifest (an unusual input, a boundary value, a particular multi-step sequence of operations, a fault at a particular point) rather than being exposed at once by ordinary use.
 {hint}
-Also write a demonstration: a new Go test file (or small program) that FAILS with your change applied and PASSES on the original code. Put the demonstration in a new file (e.g. a new zz_demo_test.go in the relevant package directory). Verify both directions yourself: run it with your change (must fail), then `git stash` the source change (keeping the demo file), run it again (must pass), then `git stash pop`.
+Also write a demonstration: a new Go test file (or small program) that FAILS with your change applied and PASSES on the original code. Put the demonstration in a new file (e.g. a new zz_demo_test.go in the relevant package directory). Verify both directions yourself: run it with your change (must fail), then save your source change with `git diff -- <changed source files> > /var/tmp/<unique-name>.diff`, revert it with `git apply -R`, run the demo again (must pass), then re-apply the diff. Do NOT use `git stash` (the stash is shared with other worktrees of this repository).
 
 Environment notes: no network; use `export GOFLAGS=-mod=mod GOPROXY=off GOSUMDB=off GOTOOLCHAIN=local` before go commands; if go.mod/go.sum get rewritten by the go tool, restore them with `git checkout go.mod go.sum` before producing the diff. Do not commit. Keep the change minimal (a few lines).
 
